@@ -215,6 +215,26 @@ def dump_case(r, ctx, i):
     check_dump(docs, opts, ctx, case)
 
 
+def directives_check(text, opts, ndocs, ctx, case):
+    """version= and tags= apply to every document of the stream: each DocumentStart read back carries them."""
+    want_v = tuple(opts['version']) if opts.get('version') else None
+    want_t = dict(opts['tags']) if opts.get('tags') else None
+    if want_v is None and want_t is None:
+        return
+    try:
+        ds = [e for e in yaml.parse(text if isinstance(text, str) else text.decode('utf-8', 'replace'), Loader=yaml.SafeLoader) if isinstance(e, yaml.DocumentStartEvent)]
+    except yaml.YAMLError:
+        return
+    ctx.stat('directive_checks')
+    for k, e in enumerate(ds):
+        got_v = tuple(e.version) if e.version else None
+        got_t = dict(e.tags) if e.tags else None
+        if (want_v is not None and got_v != want_v) or (want_t is not None and got_t != want_t):
+            ctx.violation(case, {'what': 'document %d of the stream does not carry the %%YAML / %%TAG directives the options ask for' % k, 'version': repr(got_v), 'tags': repr(got_t),
+                                 'wanted': repr((want_v, want_t)), 'text': text[:600] if isinstance(text, str) else None}, None)
+            return
+
+
 def check_dump(docs, opts, ctx, case, only=None):
     values = [build_value(d) for d in docs]
     for dname in yamlapi.loaders(['SafeDumper', 'CSafeDumper']):
@@ -227,6 +247,7 @@ def check_dump(docs, opts, ctx, case, only=None):
             ctx.violation(dict(case, D=dname), {'what': 'dump_all rejected plain data', 'exc': yamlapi.exc_sig(e)}, None)
             continue
         ctx.stat('writes')
+        directives_check(text, opts, len(docs), ctx, dict(case, D=dname))
         for lname in yamlapi.loaders(['SafeLoader', 'CSafeLoader']):
             if only and only[1] != lname:
                 continue
@@ -370,6 +391,8 @@ def check_serialize(docs, opts, ctx, case, only=None):
             ctx.violation(dict(case, D=dname), {'what': 'serialize_all rejected a node graph', 'exc': yamlapi.exc_sig(e)}, None)
             continue
         ctx.stat('writes')
+        if not (dname == 'CDumper' and not opts.get('canonical') and f9a_nodes(docs, opts)):
+            directives_check(text, opts, len(docs), ctx, dict(case, D=dname))
         for lname in yamlapi.loaders(['Loader', 'CLoader']):
             if only and only[1] != lname:
                 continue
